@@ -11,11 +11,14 @@ PENDING_REASON = ("not claimed yet: the Lean model, theorems and correspondence 
                   "property (DESIGN.md section 4) are not built; proof in Lean 4 is applicable and "
                   "planned, no other technique is substituted")
 
+# properties whose check has been reviewed and accepted by the coordinator (others stay under
+# not_applicable/pending even if work-in-progress files exist)
+ACCEPTED = [l.strip() for l in open(os.path.join(HERE, 'accepted.txt')) if l.strip()]
 props = [json.loads(l) for l in open(os.path.join(HERE, 'properties.jsonl'))]
 checks, na = [], []
 for p in props:
     pid = p['id']
-    if not os.path.exists(os.path.join(HERE, 'harness', pid.lower() + '.py')):
+    if pid not in ACCEPTED or not os.path.exists(os.path.join(HERE, 'harness', pid.lower() + '.py')):
         na.append({'property_id': pid, 'reason': PENDING_REASON})
         continue
     mod = importlib.import_module(pid.lower())
